@@ -24,10 +24,11 @@ type c02cfg struct {
 	other       bool // a second, unrelated service exists
 	slow        bool // two in-flight requests of different length and slow late arrivals
 	offer       bool // the in-flight request offers a protocol upgrade the target does not take
+	lateProbe   bool // probe timeout > probe interval; the new targets' first probe hangs, later ones succeed; clients arrive on a time grid
 }
 
 func (c c02cfg) String() string {
-	return fmt.Sprintf("old=%d new=%d clients=%dx%d inflight=%v redeploys=%d changeHosts=%v other=%v slow=%v offer=%v", c.nOld, c.nNew, c.clients, c.perClient, c.inflight, c.redeploys, c.changeHosts, c.other, c.slow, c.offer)
+	return fmt.Sprintf("old=%d new=%d clients=%dx%d inflight=%v redeploys=%d changeHosts=%v other=%v slow=%v offer=%v lateProbe=%v", c.nOld, c.nNew, c.clients, c.perClient, c.inflight, c.redeploys, c.changeHosts, c.other, c.slow, c.offer, c.lateProbe)
 }
 
 func tnames(prefix string, n int) []string {
@@ -51,7 +52,11 @@ func c02Scenario(c c02cfg) *Scenario {
 		for g := 0; g < c.redeploys; g++ {
 			ns := tnames(fmt.Sprintf("n%d", g), c.nNew)
 			for _, n := range ns {
-				w.AddTarget(n)
+				if c.lateProbe {
+					w.AddTarget(n, pHang(), pOK())
+				} else {
+					w.AddTarget(n)
+				}
 				allowed[n] = true
 			}
 			gens = append(gens, ns)
@@ -99,6 +104,10 @@ func c02Scenario(c c02cfg) *Scenario {
 			defer wg.Done()
 			for g := 0; g < c.redeploys; g++ {
 				a := deployArgs("s1", gens[g], hosts, nil)
+				if c.lateProbe {
+					// as with the defaults (5s/1s) the probe timeout exceeds the interval
+					a.TargetOptions.HealthCheckConfig.Timeout = 2*vI + vI/2
+				}
 				if c.changeHosts {
 					a.ServiceOptions.Hosts = []string{"a.example.com", fmt.Sprintf("g%d.example.com", g)}
 				}
@@ -113,6 +122,10 @@ func c02Scenario(c c02cfg) *Scenario {
 				defer wg.Done()
 				for j := 0; j < c.perClient; j++ {
 					spec := ReqSpec{ID: fmt.Sprintf("c%d.%d", k, j), Host: "a.example.com", Path: "/"}
+					if c.lateProbe {
+						// arrival grid: around each probe tick and each possible probe timeout of the deploy
+						time.Sleep(time.Duration(k)*vI + vI*6/10)
+					}
 					if c.slow {
 						// arrive while the old targets are still draining and take long enough to outlive the drain
 						time.Sleep(700 * time.Millisecond)
@@ -199,6 +212,7 @@ func c02Configs(tier string) []c02cfg {
 		cfgs = append(cfgs, c02cfg{nOld: 1, nNew: 1, clients: 1, perClient: 1, redeploys: 1, inflight: true, offer: true})
 		cfgs = append(cfgs, c02cfg{nOld: 1, nNew: 1, clients: 1, perClient: 1, redeploys: 1, slow: true})
 		cfgs = append(cfgs, c02cfg{nOld: 1, nNew: 1, clients: 2, perClient: 1, redeploys: 1, slow: true})
+		cfgs = append(cfgs, c02cfg{nOld: 1, nNew: 1, clients: 4, perClient: 1, redeploys: 1, lateProbe: true})
 		return cfgs
 	}
 	for _, sh := range [][2]int{{1, 1}, {2, 1}, {1, 2}, {2, 2}} {
@@ -212,6 +226,10 @@ func c02Configs(tier string) []c02cfg {
 		for _, cl := range [][2]int{{1, 1}, {1, 2}, {2, 1}} {
 			cfgs = append(cfgs, c02cfg{nOld: sh[0], nNew: sh[1], clients: cl[0], perClient: cl[1], redeploys: 1, slow: true})
 		}
+	}
+	for _, sh := range [][2]int{{1, 1}, {2, 1}, {1, 2}} {
+		cfgs = append(cfgs, c02cfg{nOld: sh[0], nNew: sh[1], clients: 4, perClient: 1, redeploys: 1, lateProbe: true})
+		cfgs = append(cfgs, c02cfg{nOld: sh[0], nNew: sh[1], clients: 5, perClient: 1, redeploys: 2, lateProbe: true})
 	}
 	for _, ch := range []bool{false, true} {
 		for _, ot := range []bool{false, true} {
